@@ -216,6 +216,31 @@ def compare_set(si, docs, impl, model, stats, mode=""):
         if dd and dd[1] not in mems:
             yield ("plugin-chain-differs", "a ConfigCompiler with the plugin classes of core_module.cc in the harness's order gives another tree than the config_builder component",
                    {"set": si, "documents": docs_json(docs), "document": d}, False)
+    # 1c. (round 4) a bare include of a node of ANOTHER document is a copy of that node as the other document compiles it -
+    #     judged on the implementation's own two results (no specification involved), whatever else the including document
+    #     includes before it
+    def sub(tree, keys):
+        for k in keys:
+            if tree is None or tree[0] != 'M':
+                return "absent"
+            hit = [v for (hk, v) in tree[1] if hk == k.encode().hex()]
+            if not hit:
+                return "absent"
+            tree = hit[0]
+        return tree
+    for (d, key, other, path) in G.bare_xdoc_includes(docs):
+        if d not in by_doc or other not in by_doc or len({m for (_, _, m, _) in by_doc[other]}) != 1:
+            continue
+        stats["xdoc_include_checks"] = stats.get("xdoc_include_checks", 0) + 1
+        theirs = sub(G.parse_canon(by_doc[other][0][2]), path)
+        for (o, pos, m, _) in by_doc[d]:
+            mine = sub(G.parse_canon(m), [key])
+            if theirs != "absent" and mine != theirs:
+                yield ("include-is-not-a-copy-of-the-compiled-node:" + shape_key(docs),
+                       "'%s:/%s' includes '%s:/%s' but is not a copy of that node as '%s' compiles it" % (d, key, other, "/".join(path), other),
+                       {"set": si, "documents": docs_json(docs), "document": d, "order": o,
+                        "included_as": G.pretty(mine) if mine != "absent" else "absent", "compiled_node": G.pretty(theirs)}, True)
+                break
     # 1b. the heap model of the implemented algorithm agrees with librime on every set (cyclic and erroneous included)
     for d in docs:
         mi = (model or {}).get("I", {}).get(d)
